@@ -15,6 +15,7 @@
  *   ptol <x> | ettol <x> | itlimit <n> | pvalue <x>
  *   merror <n> <f...|-> <nf...> <tr...|->                    ("-" for tr = NULL)
  *   merror off
+ *   merror_nonf <n> <tr...>          sigma_nf_vector NULL, sigma_tr_vector given (an invalid call)
  *   dumpmerror                       prints "merrorvec <nf tr> ..." per calibration frequency (or none)
  *   single <pname> <port> <mr> <mc> <cells: per cell, per frequency re im>
  *   double <p1> <p2> <port1> <port2> <mr> <mc> <cells>
@@ -209,6 +210,59 @@ double wb_exp(double x)
 {
     printf("wb exp %.17g\n", x);
     return exp(x);
+}
+
+/*
+ * _vnacal_new_solve_calc_pvalue as the rest of the library sees it in the white-box build: the real
+ * function (src/vnacal_new_solve_pvalue.c, unmodified, renamed by harness/selfcal_wb_pvalue.c) is
+ * called with the same arguments; before the call the inputs of its degrees-of-freedom count are
+ * printed from the solve state: unknowns per system, the equation count of every system, and for
+ * every off-diagonal leakage cell the accumulated vnlt_count together with, per standard, whether
+ * the cell was measured (vnm_m_matrix != NULL) and whether the standard connects the two ports
+ * (vnm_connectivity_matrix) -- the two tests of _vnacal_new_solve_start_frequency.
+ *   wb pvin findex=<f> unknowns=<u> eqs=<n,...>
+ *   wb leakcell <row> <col> count=<vnlt_count> std=<gc>,<gc>...   (g, c in {0,1})
+ *   wb pvout <p-value>
+ */
+double wb_real_calc_pvalue(vnacal_new_solve_state_t *vnssp, const double complex *x_vector,
+	int x_length);
+double _vnacal_new_solve_calc_pvalue(vnacal_new_solve_state_t *vnssp,
+	const double complex *x_vector, int x_length)
+{
+    vnacal_new_t *vnp = vnssp->vnss_vnp;
+    const vnacal_layout_t *vlp = &vnp->vn_layout;
+    const int m_rows = VL_M_ROWS(vlp), m_columns = VL_M_COLUMNS(vlp);
+    const int s_columns = VL_S_COLUMNS(vlp);
+    double p;
+
+    printf("wb pvin findex=%d unknowns=%d eqs=", vnssp->vnss_findex, vlp->vl_t_terms - 1);
+    for (int s = 0; s < vnp->vn_systems; ++s)
+	printf("%s%d", s ? "," : "", vnp->vn_system_vector[s].vns_equation_count);
+    printf("\n");
+    if (vnssp->vnss_leakage_matrix != NULL) {
+	for (int row = 0; row < m_rows; ++row) {
+	    for (int column = 0; column < m_columns; ++column) {
+		const int m_cell = row * m_columns + column;
+		const int s_cell = row * s_columns + column;
+		int k = 0;
+
+		if (row == column)
+		    continue;
+		printf("wb leakcell %d %d count=%d std=", row, column,
+			vnssp->vnss_leakage_matrix[m_cell]->vnlt_count);
+		for (vnacal_new_measurement_t *vnmp = vnp->vn_measurement_list; vnmp != NULL;
+			vnmp = vnmp->vnm_next) {
+		    printf("%s%d%d", k++ ? "," : "", vnmp->vnm_m_matrix[m_cell] != NULL ? 1 : 0,
+			    vnmp->vnm_connectivity_matrix != NULL &&
+			    vnmp->vnm_connectivity_matrix[s_cell] ? 1 : 0);
+		}
+		printf("\n");
+	    }
+	}
+    }
+    p = wb_real_calc_pvalue(vnssp, x_vector, x_length);
+    printf("wb pvout %.17g\n", p);
+    return p;
 }
 
 /* wrappers around the static save_v_matrices / restore_v_matrices (harness/selfcal_wb_auto.c) */
@@ -613,6 +667,13 @@ int main(int argc, char **argv)
 		report("merror", vnacal_new_set_m_error(vnp, havef ? f : NULL, n, nfv,
 			    havetr ? trv : NULL));
 	    }
+
+	} else if (strcmp(op, "merror_nonf") == 0) {
+	    /* merror_nonf <n> <tr...>: sigma_nf_vector NULL with a sigma_tr_vector (must be rejected) */
+	    int n = nexti();
+	    double trv[n];
+	    for (int i = 0; i < n; ++i) trv[i] = nextd();
+	    report("merror", vnacal_new_set_m_error(vnp, NULL, n, NULL, trv));
 
 	} else if (strcmp(op, "dumpmerror") == 0) {
 	    /* the per-calibration-frequency noise model as stored (internal structure) */
